@@ -45,6 +45,15 @@ type item struct {
 	args map[string]any
 }
 
+// cand is one crafted pair of items with a description of the exact inputs.
+type cand struct {
+	a, b *item
+	note string
+}
+
+// separators a plain join might use ("" = bare concatenation)
+var seps = []string{"/", "|", ",", ":", ";", "\n", "\t", " ", "\x00", ""}
+
 type kindDef struct {
 	name   string
 	family string
@@ -52,8 +61,9 @@ type kindDef struct {
 	base   func() *item
 	// vals: second value per field path ("x[].y": []any, one per element)
 	alt map[string]any
-	// shift: crafted boundary-moving pairs, keyed by the sorted field set joined with ","
-	shift  map[string]func() (*item, *item, string)
+	// shift: crafted boundary-moving pairs (several candidates: one per plausible way of joining the parts),
+	// keyed by the sorted field set joined with ","
+	shift  map[string]func() []cand
 	digest func(*item) ([]byte, error)
 	// pair, if set, runs the real pooling code on both items and returns the two identities and whether they were kept apart
 	pair func(a, b *item) (da, db []byte, differs bool, err error)
@@ -447,6 +457,20 @@ func lightNodeSale() *skywaytypes.MsgLightNodeSaleClaim {
 		SkywayNonce: 7, ClientAddress: accA, Amount: math.NewInt(5000), SmartContractAddress: addrA, CompassId: tsA}
 }
 
+// lnsCands builds one crafted pair of light-node-sale claims per separator.
+func lnsCands(set func(sep string, a, b *skywaytypes.MsgLightNodeSaleClaim)) []cand {
+	var cs []cand
+	for _, sep := range seps {
+		a, b := lightNodeSale(), lightNodeSale()
+		set(sep, a, b)
+		d := func(c *skywaytypes.MsgLightNodeSaleClaim) string {
+			return fmt.Sprintf("(client_address=%q, amount=%s, smart_contract_address=%q, compass_id=%q)", c.ClientAddress, c.Amount, c.SmartContractAddress, c.CompassId)
+		}
+		cs = append(cs, cand{claimItem(a), claimItem(b), d(a) + " ~ " + d(b) + ", all else equal"})
+	}
+	return cs
+}
+
 func claimItem(c any) *item { return &item{obj: c, anys: map[string]any{}, args: map[string]any{}} }
 
 func kindsC11() []*kindDef {
@@ -460,12 +484,17 @@ func kindsC11() []*kindDef {
 				"ethereum_sender": addrD,
 				"paloma_receiver": accB,
 			}),
-			shift: map[string]func() (*item, *item, string){
-				"compass_id,paloma_receiver": func() (*item, *item, string) {
-					a, b := sendToPaloma(), sendToPaloma()
-					a.PalomaReceiver, a.CompassId = "x/y", "z"
-					b.PalomaReceiver, b.CompassId = "x", "y/z"
-					return claimItem(a), claimItem(b), `(paloma_receiver="x/y", compass_id="z") ~ (paloma_receiver="x", compass_id="y/z"), all else equal`
+			shift: map[string]func() []cand{
+				"compass_id,paloma_receiver": func() []cand {
+					var cs []cand
+					for _, sep := range seps {
+						a, b := sendToPaloma(), sendToPaloma()
+						a.PalomaReceiver, a.CompassId = "x"+sep+"y", "z"
+						b.PalomaReceiver, b.CompassId = "x", "y"+sep+"z"
+						cs = append(cs, cand{claimItem(a), claimItem(b),
+							fmt.Sprintf("(paloma_receiver=%q, compass_id=%q) ~ (paloma_receiver=%q, compass_id=%q), all else equal", a.PalomaReceiver, a.CompassId, b.PalomaReceiver, b.CompassId)})
+					}
+					return cs
 				},
 			},
 			pair: claimPair,
@@ -487,13 +516,34 @@ func kindsC11() []*kindDef {
 				"amount":                 math.NewInt(5001),
 				"smart_contract_address": addrB,
 			}),
-			shift: map[string]func() (*item, *item, string){
-				// client_address and compass_id are unvalidated strings; the amount between them is a number
-				"amount,client_address,compass_id": func() (*item, *item, string) {
-					a, b := lightNodeSale(), lightNodeSale()
-					a.ClientAddress, a.Amount, a.CompassId = "c/5", math.NewInt(7), "z"
-					b.ClientAddress, b.Amount, b.CompassId = "c", math.NewInt(5), "7/z"
-					return claimItem(a), claimItem(b), `(client_address="c/5", amount=7, compass_id="z") ~ (client_address="c", amount=5, compass_id="7/z"), all else equal`
+			shift: map[string]func() []cand{
+				// client_address, smart_contract_address and compass_id are unvalidated strings; the amount between
+				// client_address and smart_contract_address is a number and can be re-cut out of / into its neighbours
+				"amount,client_address,smart_contract_address": func() []cand {
+					return lnsCands(func(sep string, a, b *skywaytypes.MsgLightNodeSaleClaim) {
+						a.ClientAddress, a.Amount, a.SmartContractAddress = "c"+sep+"5", math.NewInt(7), "k"
+						b.ClientAddress, b.Amount, b.SmartContractAddress = "c", math.NewInt(5), "7"+sep+"k"
+						if sep == "" {
+							a.ClientAddress, a.Amount, a.SmartContractAddress = "c5", math.NewInt(7), "k"
+							b.ClientAddress, b.Amount, b.SmartContractAddress = "c", math.NewInt(57), "k"
+						}
+					})
+				},
+				"compass_id,smart_contract_address": func() []cand {
+					return lnsCands(func(sep string, a, b *skywaytypes.MsgLightNodeSaleClaim) {
+						a.SmartContractAddress, a.CompassId = "k"+sep+"y", "z"
+						b.SmartContractAddress, b.CompassId = "k", "y"+sep+"z"
+					})
+				},
+				"amount,client_address,compass_id,smart_contract_address": func() []cand {
+					return lnsCands(func(sep string, a, b *skywaytypes.MsgLightNodeSaleClaim) {
+						a.ClientAddress, a.Amount, a.SmartContractAddress, a.CompassId = "c"+sep+"5", math.NewInt(7), "k", "z"
+						b.ClientAddress, b.Amount, b.SmartContractAddress, b.CompassId = "c", math.NewInt(5), "7", "k"+sep+"z"
+						if sep == "" {
+							a.ClientAddress, a.Amount, a.SmartContractAddress, a.CompassId = "c5", math.NewInt(7), "k", "z"
+							b.ClientAddress, b.Amount, b.SmartContractAddress, b.CompassId = "c", math.NewInt(57), "", "kz"
+						}
+					})
 				},
 			},
 			pair: claimPair,
@@ -626,10 +676,10 @@ func txProof() *evmtypes.TxExecutedProof {
 }
 
 func kindsC04() []*kindDef {
-	mk := func(name string, base func() any, alt map[string]any, shift map[string]func() (*item, *item, string)) *kindDef {
-		return &kindDef{name: name, family: "C04", base: func() *item { return claimItem(base()) }, alt: alt, shift: shift,
-			pair: proofPair}
+	mk := func(name string, base func() any, alt map[string]any, shift map[string]func() []cand) *kindDef {
+		return &kindDef{name: name, family: "C04", base: func() *item { return claimItem(base()) }, alt: alt, shift: shift, pair: proofPair}
 	}
+	const hash = "0x5bd1e4b2e7c9c0e6b1f3a2d4c5b6a79881726354a0b1c2d3e4f5061728394a5b"
 	return []*kindDef{
 		mk("TxExecutedProof", func() any { return txProof() }, map[string]any{
 			"serializedTX":      signedTx(6, addrF, []byte{0xde, 0xad, 0xbe, 0xef}),
@@ -643,57 +693,85 @@ func kindsC04() []*kindDef {
 		}, map[string]any{
 			"blockHeight": uint64(19000001),
 			"balances":    []string{"1500000000000000000", "20000000000000001", "0"},
-		}, map[string]func() (*item, *item, string){
+		}, map[string]func() []cand{
 			// element boundary inside the repeated field
-			"balances": func() (*item, *item, string) {
-				a := &evmtypes.ValidatorBalancesAttestationRes{BlockHeight: 19000000, Balances: []string{"1500000000000000000", "20000000000000000", "0"}}
-				b := &evmtypes.ValidatorBalancesAttestationRes{BlockHeight: 19000000, Balances: []string{"1500000000000000000\n20000000000000000", "0"}}
-				return claimItem(a), claimItem(b), `(blockHeight=19000000, balances=["1500000000000000000","20000000000000000","0"]) ~ (blockHeight=19000000, balances=["1500000000000000000\n20000000000000000","0"])`
+			"balances": func() []cand {
+				var cs []cand
+				for _, sep := range seps {
+					a := &evmtypes.ValidatorBalancesAttestationRes{BlockHeight: 19000000, Balances: []string{"1500000000000000000", "20000000000000000", "0"}}
+					b := &evmtypes.ValidatorBalancesAttestationRes{BlockHeight: 19000000, Balances: []string{"1500000000000000000" + sep + "20000000000000000", "0"}}
+					if sep == "" {
+						b.Balances = []string{"15000000000000000002", "0000000000000000", "0"}
+					}
+					cs = append(cs, cand{claimItem(a), claimItem(b), fmt.Sprintf("(blockHeight=19000000, balances=%q) ~ (blockHeight=19000000, balances=%q)", a.Balances, b.Balances)})
+				}
+				return cs
 			},
 		}),
 		mk("ReferenceBlockAttestationRes", func() any {
-			return &evmtypes.ReferenceBlockAttestationRes{BlockHeight: 19000000, BlockHash: "0x5bd1e4b2e7c9c0e6b1f3a2d4c5b6a79881726354a0b1c2d3e4f5061728394a5b"}
+			return &evmtypes.ReferenceBlockAttestationRes{BlockHeight: 19000000, BlockHash: hash}
 		}, map[string]any{
 			"blockHeight": uint64(19000001),
 			"blockHash":   "0x6cd1e4b2e7c9c0e6b1f3a2d4c5b6a79881726354a0b1c2d3e4f5061728394a5c",
-		}, map[string]func() (*item, *item, string){
-			"blockHash,blockHeight": func() (*item, *item, string) {
-				a := &evmtypes.ReferenceBlockAttestationRes{BlockHeight: 19000000, BlockHash: "0x5bd1e4b2e7c9c0e6b1f3a2d4c5b6a79881726354a0b1c2d3e4f5061728394a5b"}
-				b := &evmtypes.ReferenceBlockAttestationRes{BlockHeight: 190000000, BlockHash: "x5bd1e4b2e7c9c0e6b1f3a2d4c5b6a79881726354a0b1c2d3e4f5061728394a5b"}
-				return claimItem(a), claimItem(b), `(blockHeight=19000000, blockHash="0x5bd1e4...5b") ~ (blockHeight=190000000, blockHash="x5bd1e4...5b")`
+		}, map[string]func() []cand{
+			"blockHash,blockHeight": func() []cand {
+				a := &evmtypes.ReferenceBlockAttestationRes{BlockHeight: 19000000, BlockHash: hash}
+				b := &evmtypes.ReferenceBlockAttestationRes{BlockHeight: 190000000, BlockHash: hash[1:]}
+				return []cand{{claimItem(a), claimItem(b), fmt.Sprintf("(blockHeight=19000000, blockHash=%q) ~ (blockHeight=190000000, blockHash=%q)", a.BlockHash, b.BlockHash)}}
 			},
 		}),
 	}
 }
 
-// crossPair crafts, for two proof types, the pair of proofs most likely to be pooled although their
-// types differ (equal BytesToHash where the encodings allow it, otherwise the two base proofs).
-func crossPair(t1, t2 string) (*item, *item, string, error) {
+// crossPairs crafts, for two proof types, the pairs of proofs most likely to be pooled although their types differ:
+// equal plain-joined hash input (the encoding before the type tag), and equal lists of parts (any encoding that
+// delimits the parts but does not name the type).  Where nothing can be crafted the two base proofs are used.
+func crossPairs(t1, t2 string) ([]cand, error) {
 	key := t1 + "," + t2
 	tx := txProof()
-	txBytes := string(tx.SerializedTX) + string(tx.SerializedReceipt)
+	txOnly := &evmtypes.TxExecutedProof{SerializedTX: tx.SerializedTX}
+	errp := func(m string) *item { return claimItem(&evmtypes.SmartContractExecutionErrorProof{ErrorMessage: m}) }
+	bal := func(h uint64, b ...string) *item {
+		return claimItem(&evmtypes.ValidatorBalancesAttestationRes{BlockHeight: h, Balances: b})
+	}
+	ref := func(h uint64, hash string) *item {
+		return claimItem(&evmtypes.ReferenceBlockAttestationRes{BlockHeight: h, BlockHash: hash})
+	}
 	switch key {
 	case "SmartContractExecutionErrorProof,TxExecutedProof":
-		return claimItem(&evmtypes.SmartContractExecutionErrorProof{ErrorMessage: txBytes}), claimItem(tx),
-			"SmartContractExecutionErrorProof{errorMessage = string(serializedTX ++ serializedReceipt)} ~ TxExecutedProof{serializedTX, serializedReceipt} (signed dynamic-fee tx nonce 5, receipt status 1)", nil
+		return []cand{
+			{errp(string(tx.SerializedTX) + string(tx.SerializedReceipt)), claimItem(tx),
+				"SmartContractExecutionErrorProof{errorMessage = string(serializedTX ++ serializedReceipt)} ~ TxExecutedProof{serializedTX, serializedReceipt} (signed dynamic-fee tx nonce 5, receipt status 1)"},
+			{errp(string(tx.SerializedTX)), claimItem(txOnly),
+				"SmartContractExecutionErrorProof{errorMessage = string(serializedTX)} ~ TxExecutedProof{serializedTX, no receipt}"},
+		}, nil
 	case "SmartContractExecutionErrorProof,ValidatorBalancesAttestationRes":
-		return claimItem(&evmtypes.SmartContractExecutionErrorProof{ErrorMessage: "19000000\n1500000000000000000\n0"}),
-			claimItem(&evmtypes.ValidatorBalancesAttestationRes{BlockHeight: 19000000, Balances: []string{"1500000000000000000", "0"}}),
-			`SmartContractExecutionErrorProof{errorMessage="19000000\n1500000000000000000\n0"} ~ ValidatorBalancesAttestationRes{blockHeight=19000000, balances=["1500000000000000000","0"]}`, nil
+		return []cand{
+			{errp("19000000\n1500000000000000000\n0"), bal(19000000, "1500000000000000000", "0"),
+				`SmartContractExecutionErrorProof{errorMessage="19000000\n1500000000000000000\n0"} ~ ValidatorBalancesAttestationRes{blockHeight=19000000, balances=["1500000000000000000","0"]}`},
+			{errp("19000000"), bal(19000000),
+				`SmartContractExecutionErrorProof{errorMessage="19000000"} ~ ValidatorBalancesAttestationRes{blockHeight=19000000, balances=[]}`},
+		}, nil
 	case "ReferenceBlockAttestationRes,SmartContractExecutionErrorProof":
-		return claimItem(&evmtypes.ReferenceBlockAttestationRes{BlockHeight: 19000000, BlockHash: "0x5bd1e4"}),
-			claimItem(&evmtypes.SmartContractExecutionErrorProof{ErrorMessage: "190000000x5bd1e4"}),
-			`ReferenceBlockAttestationRes{blockHeight=19000000, blockHash="0x5bd1e4"} ~ SmartContractExecutionErrorProof{errorMessage="190000000x5bd1e4"}`, nil
+		return []cand{
+			{ref(19000000, "0x5bd1e4"), errp("190000000x5bd1e4"),
+				`ReferenceBlockAttestationRes{blockHeight=19000000, blockHash="0x5bd1e4"} ~ SmartContractExecutionErrorProof{errorMessage="190000000x5bd1e4"}`},
+			{ref(19000000, ""), errp("19000000"),
+				`ReferenceBlockAttestationRes{blockHeight=19000000, blockHash=""} ~ SmartContractExecutionErrorProof{errorMessage="19000000"}`},
+		}, nil
 	case "ReferenceBlockAttestationRes,ValidatorBalancesAttestationRes":
-		return claimItem(&evmtypes.ReferenceBlockAttestationRes{BlockHeight: 19000000, BlockHash: "\n0x5bd1e4"}),
-			claimItem(&evmtypes.ValidatorBalancesAttestationRes{BlockHeight: 19000000, Balances: []string{"0x5bd1e4"}}),
-			`ReferenceBlockAttestationRes{blockHeight=19000000, blockHash="\n0x5bd1e4"} ~ ValidatorBalancesAttestationRes{blockHeight=19000000, balances=["0x5bd1e4"]}`, nil
+		return []cand{
+			{ref(19000000, "\n0x5bd1e4"), bal(19000000, "0x5bd1e4"),
+				`ReferenceBlockAttestationRes{blockHeight=19000000, blockHash="\n0x5bd1e4"} ~ ValidatorBalancesAttestationRes{blockHeight=19000000, balances=["0x5bd1e4"]}`},
+			{ref(19000000, "0x5bd1e4"), bal(19000000, "0x5bd1e4"),
+				`ReferenceBlockAttestationRes{blockHeight=19000000, blockHash="0x5bd1e4"} ~ ValidatorBalancesAttestationRes{blockHeight=19000000, balances=["0x5bd1e4"]}`},
+		}, nil
 	case "TxExecutedProof,ValidatorBalancesAttestationRes":
-		return claimItem(tx), claimItem(&evmtypes.ValidatorBalancesAttestationRes{BlockHeight: 19000000, Balances: []string{"0"}}), "base proofs (no equal hash input can be crafted: RLP vs decimal digits)", nil
+		return []cand{{claimItem(tx), bal(19000000, "0"), "base proofs (no equal hash input can be crafted: RLP vs decimal digits)"}}, nil
 	case "ReferenceBlockAttestationRes,TxExecutedProof":
-		return claimItem(&evmtypes.ReferenceBlockAttestationRes{BlockHeight: 19000000, BlockHash: "0x5bd1e4"}), claimItem(tx), "base proofs (no equal hash input can be crafted: RLP vs decimal digits)", nil
+		return []cand{{ref(19000000, "0x5bd1e4"), claimItem(tx), "base proofs (no equal hash input can be crafted: RLP vs decimal digits)"}}, nil
 	}
-	return nil, nil, "", fmt.Errorf("no cross pair for %s", key)
+	return nil, fmt.Errorf("no cross pair for %s", key)
 }
 
 // ---------------------------------------------------------------------------------------------
